@@ -3,6 +3,4 @@
 (* kept in specs/sync is the extraction from the pinned tree; every run of the check regenerates it    *)
 (* from the current sources before TLC is started.                                                     *)
 EXTENDS SpinAsm, SpinProg
-\* a Release written as a plain store  l.state = 0  (correct on x86-TSO, wrong with a non-FIFO store buffer)
-PlainRel == [kind |-> "plain", v |-> 0]
 ====
